@@ -402,12 +402,7 @@ func c05R5(c *Ctx) {
 	}
 	// recursive call: same taskNode parameter, the sub-batch
 	attempt := c.Fn(r, pFunnel, "(*Worker).doTaskAttempt")
-	var taskNodeP ssa.Value
-	for _, p := range fn.Params {
-		if p.Name() == "taskNode" {
-			taskNodeP = p
-		}
-	}
+	taskNodeP := paramOfNamed(fn, "TaskNode")
 	for _, call := range kit.CallsTo(fn, Set(attempt)) {
 		a := call.Common().Args // w, ctx, taskNode, b, acker, retry
 		ok := len(a) == 6 && a[2] == taskNodeP && isSB(a[3])
